@@ -32,7 +32,16 @@ DropBlankAfterOpener(ls) ==
   ELSE ls
 Norm(rec, ls) == IF rec.keepLast THEN ls ELSE DropBlankAfterOpener(DropBlankBeforeCloser(ls))
 \* the property is about elements that occupy their own lines
-Conforms == l <= Len(Trace) => (OwnLines(Rec.elems) => Norm(Rec, Rec.lines) = Norm(Rec, Printed(Rec.elems)))
+\* expression-level lists (arguments, parameters, results, literal elements): spacing on an element
+\* splits the list there - two neighbours share a line exactly when no line break lies between
+\* them.  What happens next to the delimiters and whether a blank line survives is go/printer's
+\* business (it cannot break in front of the first result of a return, keeps closing parentheses
+\* on the line, ...), so only the neighbour relation is compared.
+SameLine(ls, i) == LineOf(ls, El(i)) = LineOf(ls, El(i - 1))
+ExprConforms(rec) == \A i \in 2..Len(rec.elems) : SameLine(rec.lines, i) <=> SameLine(Printed(rec.elems), i)
+Conforms == l <= Len(Trace) =>
+   IF Rec.expr THEN ExprConforms(Rec)
+   ELSE (OwnLines(Rec.elems) => Norm(Rec, Rec.lines) = Norm(Rec, Printed(Rec.elems)))
 Rule == l <= Len(Trace) => (NonAdditive(Rec.elems) /\ Delimiters(Rec.elems))
 Accepted == TLCGet("stats").diameter = Len(Trace) + 1
 =============================================================================
